@@ -298,6 +298,8 @@ def main():
             "args": None,
         }
     res["id"] = q.get("id")
+    if isinstance(res.get("args"), dict):
+        res["args"] = dict((k, ({"__bytes__": v.hex()} if isinstance(v, (bytes, bytearray)) else v)) for k, v in res["args"].items())
     with open(rfile, "w") as f:
         json.dump(res, f, default=repr)
 
